@@ -33,7 +33,8 @@ Bytes are modelled as `Nat`s (`Byte := Nat`): nothing in the model depends on a 
 Not modelled: OS errors (`MkdirAll`, `OpenFile`, short writes, a read error with 0 bytes read — which
 the reader goroutine treats like end of file), `Set` being non-atomic on disk (`O_TRUNC`, then one
 `write` per block: what a crash leaves is covered by the truncation theorems), the optional
-`Semaphore` (limits concurrency only), files in the directory that are not message ids.
+`Semaphore` (limits concurrency only), files in the directory that are not message ids.  A `Set` whose reader
+fails is `Store.setInterrupted`; the directory while a `Set` is in progress is `Store.setInFlight`.
 Core Lean only.
 -/
 namespace Gluon.Store
@@ -192,6 +193,53 @@ def delete (fs : FS) : List Id → FS × Option Err
 
 /-- `List()`: the names in the directory (order: see the dialect, compared as sorted lists). -/
 def list (fs : FS) : List Id := fs.ids
+
+/-- `Set(id, reader)` while it is in progress: `os.OpenFile(fullPath, O_RDWR|O_CREATE|O_TRUNC)` has created
+    (or emptied) the file *under the id's own name* and `written` is what has been written to it so far (nothing,
+    the header, header ++ nonce, … ++ some sealed blocks).  No other name appears in the directory at any point
+    of a `Set`. -/
+def setInFlight (fs : FS) (id : Id) (written : Bytes) : FS := fs.write id written
+
+/-- `Set(id, reader)` whose reader failed (or whose process died) after the write loop had sealed and written the
+    full blocks `done` of the compressed stream: the loop `return`s the error without writing the incomplete
+    block, nothing removes the file.  What is left is header ++ nonce ++ the sealed blocks written so far. -/
+def setInterrupted (s : Store K) (nonce : Bytes) (fs : FS) (id : Id) (done : List Bytes) : FS :=
+  fs.write id (s.cfg.header ++ nonce ++ (done.map (s.P.aeadSeal s.key nonce)).flatten)
+
+/-! ### Histories: what a sequence of calls returns -/
+
+/-- One call of the store API (`nonce` = what `rand.Read` produced in that `Set`). -/
+inductive Op where
+  | set (id : Id) (nonce b : Bytes)
+  | get (id : Id)
+  | delete (ids : List Id)
+  | list
+deriving DecidableEq, Repr
+
+/-- What the call returned.  `got (.ok b)` carries the returned bytes *as a value*: `Get` returns a slice of a
+    buffer it allocated for this call (`var b bytes.Buffer … return b.Bytes(), nil`), nobody else holds it. -/
+inductive Out where
+  | done                         -- `Set` returned nil
+  | got (r : Res)                -- `Get`
+  | deleted (e : Option Err)     -- `Delete`
+  | ids (l : List Id)            -- `List`
+deriving DecidableEq, Repr
+
+def step (s : Store K) (fs : FS) : Op → FS × Out
+  | .set id nonce b => (s.set nonce fs id b, .done)
+  | .get id => (fs, .got (s.get fs id))
+  | .delete ids => ((delete fs ids).1, .deleted (delete fs ids).2)
+  | .list => (fs, .ids (list fs))
+
+/-- the directory after a history -/
+def final (s : Store K) : FS → List Op → FS
+  | fs, [] => fs
+  | fs, op :: rest => final s (s.step fs op).1 rest
+
+/-- what the calls of a history returned, in order -/
+def run (s : Store K) : FS → List Op → List Out
+  | _, [] => []
+  | fs, op :: rest => (s.step fs op).2 :: run s (s.step fs op).1 rest
 
 end Store
 
